@@ -10,3 +10,11 @@ package template
 //@ func (Builder).Build
 //@   property C12 C10
 //@   requires [wired] b.formatter != nil
+
+// ---- constructors
+//@ func NewBuilder
+//@   property C10 C14
+//@   ensures [fields_as_given] result != nil && result.aliaser == a && result.importsProvider == ip && result.formatter == cf && result.buildInfo == buildInfo && result.stub == stub
+//@ func NewCodeFormatter
+//@   property C10
+//@   ensures [nonnil] result != nil
